@@ -353,6 +353,8 @@ def judge(m, name, result, exc, over, authentic, acc_facts):
         facts["in_x690"] = any("x690/" in f for f in over.frames[:3])
         out.append({"kind": "processing-exceeds-cpu-budget", "detail": dict(facts), "facts": facts})
         return out
+    if type(exc).__name__ == "NeverCompletes":
+        out.append({"kind": "call-never-completes", "detail": dict(facts), "facts": facts})
     if exc is None and result != authentic:
         out.append({"kind": "forged-or-altered-content-accepted", "detail": {**facts, "result": result, "authentic_result": authentic}, "facts": facts})
     return out
